@@ -13,7 +13,7 @@ from .core import ToolError
 def run_impl(wd, inputs, configs, profile="release", extra_args=None, name="parse"):
     """run run_parse in every configuration; returns {cfg: [records]}"""
     inp = os.path.join(wd, name + "-in.ndjson")
-    core.write_ndjson(inp, [{k: v for k, v in r.items() if k not in ("tag",)} for r in inputs])
+    core.write_ndjson(inp, [{k: v for k, v in r.items() if k not in ("tag", "expect", "render")} for r in inputs])
     outs = {}
     for cfg in configs:
         bindir = core.build_harness(cfg, profile=profile, bins=["run_parse"])
@@ -36,6 +36,7 @@ def merge(inputs, outs, profile_tag=""):
         m = {"id": r["id"], "fmt": r["fmt"], "int": r["int"], "frac": r["frac"], "exp": r["exp"], "outs": []}
         if "expect" in r:
             m["expect"] = r["expect"]
+            m["render"] = r.get("render", "")
         for cfg, lst in outs.items():
             o = lst[k]
             if o["id"] != r["id"]:
